@@ -162,6 +162,9 @@ pub enum Surgery {
     /// `+amp` and `-amp` (or ramp, by `variant`): instances reach and cross the int16 range of
     /// coordinates and of the deltas between consecutive points that the glyf writer encodes.
     InstallVarSimple { glyph: u16, amp: i16, variant: u64 },
+    /// Variable font without `avar` (three of the five in the corpus): install one with 3-9
+    /// monotonic segment map entries per axis (always -1 -> -1, 0 -> 0, 1 -> 1).
+    InstallAvar { variant: u64 },
     /// Re-pack `hmtx` with only `num_h_metrics` long metrics (glyphs after that take the last
     /// advance and keep their side bearing) and update `hhea`. Every corpus CFF2 font and most
     /// others have numberOfHMetrics == numGlyphs, which hides the compact form from the writers.
